@@ -23,6 +23,22 @@ pub enum Top {
 /// Array lengths that are instantiated (const generics need a closed set).
 pub const ARRAY_LENS: &[usize] = &[0, 1, 2, 3, 4, 5, 6, 7, 8, 12, 16, 256, 300];
 
+/// An element a combinator hands back: an ordinary tracked value, or a raw
+/// (destructor-less) handle that is adopted again here.
+pub trait IntoVal {
+    fn into_val(self) -> Val;
+}
+impl IntoVal for Val {
+    fn into_val(self) -> Val {
+        self
+    }
+}
+impl IntoVal for Raw {
+    fn into_val(self) -> Val {
+        Val { id: self.0 }
+    }
+}
+
 pub trait TupleOut {
     fn into_vec(self) -> Vec<Val>;
 }
@@ -33,18 +49,18 @@ impl TupleOut for () {
 }
 macro_rules! impl_tuple_out {
     ($($x:ident)+) => {
-        impl TupleOut for ($(tuple_ty!($x),)+) {
+        impl<T: IntoVal> TupleOut for ($(tuple_ty!($x),)+) {
             #[allow(non_snake_case)]
             fn into_vec(self) -> Vec<Val> {
                 let ($($x,)+) = self;
-                vec![$($x,)+]
+                vec![$($x.into_val(),)+]
             }
         }
     };
 }
 macro_rules! tuple_ty {
     ($x:ident) => {
-        Val
+        T
     };
 }
 impl_tuple_out!(A);
@@ -60,14 +76,14 @@ impl_tuple_out!(A B C D E F G H I J);
 impl_tuple_out!(A B C D E F G H I J K);
 impl_tuple_out!(A B C D E F G H I J K L);
 
-impl<const N: usize> TupleOut for [Val; N] {
+impl<T: IntoVal, const N: usize> TupleOut for [T; N] {
     fn into_vec(self) -> Vec<Val> {
-        self.into_iter().collect()
+        self.into_iter().map(IntoVal::into_val).collect()
     }
 }
-impl TupleOut for Vec<Val> {
+impl<T: IntoVal> TupleOut for Vec<T> {
     fn into_vec(self) -> Vec<Val> {
-        self
+        self.into_iter().map(IntoVal::into_val).collect()
     }
 }
 
@@ -334,51 +350,212 @@ fn kids_s(id: NodeId, spec: &CombSpec) -> Vec<SNode> {
         .with_slack()
 }
 
+/// Children of the type-dimension variants (all of them leaves).
+fn kids_plain<K>(id: NodeId, spec: &CombSpec, flavor: Flavor, mk: fn(NodeId) -> K) -> Vec<K> {
+    spec.children
+        .iter()
+        .enumerate()
+        .map(|(i, c)| match c {
+            ChildSpec::Leaf(l) => {
+                let leaf = new_leaf(Some(id), i, flavor, l);
+                world::with(|w| w.nodes[leaf].untracked_drop = true);
+                mk(leaf)
+            }
+            ChildSpec::Inner(_) => panic!("harness: the type-dimension variants have leaf children only"),
+        })
+        .collect::<Vec<_>>()
+        .with_slack()
+}
+fn kids_raw<K>(id: NodeId, spec: &CombSpec, flavor: Flavor, mk: fn(DropMark) -> K) -> Vec<K> {
+    spec.children
+        .iter()
+        .enumerate()
+        .map(|(i, c)| match c {
+            ChildSpec::Leaf(l) => mk(DropMark(new_leaf(Some(id), i, flavor, l))),
+            ChildSpec::Inner(_) => panic!("harness: the type-dimension variants have leaf children only"),
+        })
+        .collect::<Vec<_>>()
+        .with_slack()
+}
+
+fn join_over<K>(v: Vec<K>, container: Container, n: usize) -> BoxF
+where
+    K: Future + 'static,
+    K::Output: IntoVal + 'static,
+{
+    use fcf::{FutureExt as _, Join as _};
+    match container {
+        Container::Tuple => {
+            if n == 0 {
+                fin_join(().join())
+            } else {
+                let mut it = v.into_iter();
+                tuple_match!(n, it, |t| fin_join(t.join()))
+            }
+        }
+        Container::Array => array_match!(v, |a| fin_join(a.join())),
+        #[cfg(feature = "has-alloc")]
+        Container::Vec => fin_join(v.join()),
+        Container::Ext => {
+            let mut it = v.into_iter();
+            let (a, b) = (nx!(it), nx!(it));
+            fin_join(a.join(b))
+        }
+        c => panic!("harness: join over {:?}", c),
+    }
+}
+
+fn race_over<K>(v: Vec<K>, container: Container, n: usize) -> BoxF
+where
+    K: Future<Output = Val> + 'static,
+{
+    use fcf::{FutureExt as _, Race as _};
+    match container {
+        Container::Tuple => {
+            let mut it = v.into_iter();
+            tuple_match!(n, it, |t| Box::pin(t.race()) as BoxF)
+        }
+        Container::Array => array_match!(v, |a| Box::pin(a.race()) as BoxF),
+        #[cfg(feature = "has-alloc")]
+        Container::Vec => Box::pin(v.race()),
+        Container::Ext => {
+            let mut it = v.into_iter();
+            let (a, b) = (nx!(it), nx!(it));
+            Box::pin(a.race(b))
+        }
+        c => panic!("harness: race over {:?}", c),
+    }
+}
+
+fn try_join_over<K, T>(v: Vec<K>, container: Container, n: usize) -> BoxR
+where
+    K: Future<Output = Result<T, Val>> + 'static,
+    T: IntoVal + 'static,
+{
+    use fcf::TryJoin as _;
+    match container {
+        Container::Tuple => {
+            if n == 0 {
+                Box::pin(async move {
+                    match ().try_join().await {
+                        Ok(()) => Ok(Val::list(Vec::new())),
+                        Err(e) => match e {},
+                    }
+                })
+            } else {
+                let mut it = v.into_iter();
+                tuple_match!(n, it, |t| fin_try_join(t.try_join()))
+            }
+        }
+        Container::Array => array_match!(v, |a| fin_try_join(a.try_join())),
+        #[cfg(feature = "has-alloc")]
+        Container::Vec => fin_try_join(v.try_join()),
+        c => panic!("harness: try_join over {:?}", c),
+    }
+}
+
+fn race_ok_over<K>(v: Vec<K>, container: Container, n: usize) -> BoxR
+where
+    K: Future<Output = Result<Val, Val>> + 'static,
+{
+    use fcf::RaceOk as _;
+    match container {
+        Container::Tuple => {
+            let mut it = v.into_iter();
+            tuple_match!(n, it, |t| fin_race_ok_arr(t.race_ok()))
+        }
+        Container::Array => array_match!(v, |a| fin_race_ok_arr(a.race_ok())),
+        #[cfg(feature = "has-alloc")]
+        Container::Vec => fin_race_ok_vec(v.race_ok()),
+        c => panic!("harness: race_ok over {:?}", c),
+    }
+}
+
+fn merge_over<K>(v: Vec<K>, container: Container, n: usize) -> BoxS
+where
+    K: Stream<Item = Val> + 'static,
+{
+    use fcs::{Merge as _, StreamExt as _};
+    match container {
+        Container::Tuple => {
+            if n == 0 {
+                map_s(().merge(), |x| match x {})
+            } else {
+                let mut it = v.into_iter();
+                tuple_match!(n, it, |t| Box::pin(t.merge()) as BoxS)
+            }
+        }
+        Container::Array => array_match!(v, |a| Box::pin(a.merge()) as BoxS),
+        #[cfg(feature = "has-alloc")]
+        Container::Vec => Box::pin(v.merge()),
+        Container::Ext => {
+            let mut it = v.into_iter();
+            let (a, b) = (nx!(it), nx!(it));
+            Box::pin(a.merge(b))
+        }
+        c => panic!("harness: merge over {:?}", c),
+    }
+}
+
+fn zip_over<K>(v: Vec<K>, container: Container, n: usize) -> BoxS
+where
+    K: Stream + 'static,
+    K::Item: IntoVal + 'static,
+{
+    use fcs::{StreamExt as _, Zip as _};
+    match container {
+        Container::Tuple => {
+            let mut it = v.into_iter();
+            tuple_match!(n, it, |t| map_s(t.zip(), |x| Val::list(x.into_vec())))
+        }
+        Container::Array => array_match!(v, |a| map_s(a.zip(), |x| Val::list(x.into_vec()))),
+        #[cfg(feature = "has-alloc")]
+        Container::Vec => map_s(v.zip(), |x| Val::list(x.into_vec())),
+        Container::Ext => {
+            let mut it = v.into_iter();
+            let (a, b) = (nx!(it), nx!(it));
+            map_s(a.zip(b), |x| Val::list(x.into_vec()))
+        }
+        c => panic!("harness: zip over {:?}", c),
+    }
+}
+
+fn chain_over<K>(v: Vec<K>, container: Container, n: usize) -> BoxS
+where
+    K: Stream<Item = Val> + 'static,
+{
+    use fcs::{Chain as _, StreamExt as _};
+    match container {
+        Container::Tuple => {
+            let mut it = v.into_iter();
+            tuple_match!(n, it, |t| Box::pin(t.chain()) as BoxS)
+        }
+        Container::Array => array_match!(v, |a| Box::pin(a.chain()) as BoxS),
+        #[cfg(feature = "has-alloc")]
+        Container::Vec => Box::pin(v.chain()),
+        Container::Ext => {
+            let mut it = v.into_iter();
+            let (a, b) = (nx!(it), nx!(it));
+            Box::pin(a.chain(b))
+        }
+        c => panic!("harness: chain over {:?}", c),
+    }
+}
+
 pub fn build_f(parent: Option<NodeId>, idx: usize, spec: &CombSpec) -> (NodeId, BoxF) {
     use fcf::{FutureExt as _, Join as _, Race as _};
     let id = new_comb_node(parent, idx, spec);
     let n = spec.children.len();
     let b: BoxF = match spec.family {
-        Family::Join => {
-            let v = kids_f(id, spec);
-            match spec.container {
-                Container::Tuple => {
-                    if n == 0 {
-                        fin_join(().join())
-                    } else {
-                        let mut it = v.into_iter();
-                        tuple_match!(n, it, |t| fin_join(t.join()))
-                    }
-                }
-                Container::Array => array_match!(v, |a| fin_join(a.join())),
-                #[cfg(feature = "has-alloc")]
-                Container::Vec => fin_join(v.join()),
-                Container::Ext => {
-                    let mut it = v.into_iter();
-                    let (a, b) = (nx!(it), nx!(it));
-                    fin_join(a.join(b))
-                }
-                c => panic!("harness: join over {:?}", c),
-            }
-        }
-        Family::Race => {
-            let v = kids_f(id, spec);
-            match spec.container {
-                Container::Tuple => {
-                    let mut it = v.into_iter();
-                    tuple_match!(n, it, |t| Box::pin(t.race()) as BoxF)
-                }
-                Container::Array => array_match!(v, |a| Box::pin(a.race()) as BoxF),
-                #[cfg(feature = "has-alloc")]
-                Container::Vec => Box::pin(v.race()),
-                Container::Ext => {
-                    let mut it = v.into_iter();
-                    let (a, b) = (nx!(it), nx!(it));
-                    Box::pin(a.race(b))
-                }
-                c => panic!("harness: race over {:?}", c),
-            }
-        }
+        Family::Join => match spec.variant {
+            1 => join_over(kids_plain(id, spec, Flavor::F, PlainF), spec.container, n),
+            2 => join_over(kids_raw(id, spec, Flavor::F, RawF), spec.container, n),
+            _ => join_over(kids_f(id, spec), spec.container, n),
+        },
+        Family::Race => match spec.variant {
+            1 => race_over(kids_plain(id, spec, Flavor::F, PlainF), spec.container, n),
+            _ => race_over(kids_f(id, spec), spec.container, n),
+        },
         Family::WaitF => {
             let inner = build_fnode(id, 0, &spec.children[0]);
             let deadline = build_fnode(id, 1, &spec.children[1]);
@@ -394,41 +571,15 @@ pub fn build_r(parent: Option<NodeId>, idx: usize, spec: &CombSpec) -> (NodeId, 
     let id = new_comb_node(parent, idx, spec);
     let n = spec.children.len();
     let b: BoxR = match spec.family {
-        Family::TryJoin => {
-            let v = kids_r(id, spec);
-            match spec.container {
-                Container::Tuple => {
-                    if n == 0 {
-                        Box::pin(async move {
-                            match ().try_join().await {
-                                Ok(()) => Ok(Val::list(Vec::new())),
-                                Err(e) => match e {},
-                            }
-                        })
-                    } else {
-                        let mut it = v.into_iter();
-                        tuple_match!(n, it, |t| fin_try_join(t.try_join()))
-                    }
-                }
-                Container::Array => array_match!(v, |a| fin_try_join(a.try_join())),
-                #[cfg(feature = "has-alloc")]
-                Container::Vec => fin_try_join(v.try_join()),
-                c => panic!("harness: try_join over {:?}", c),
-            }
-        }
-        Family::RaceOk => {
-            let v = kids_r(id, spec);
-            match spec.container {
-                Container::Tuple => {
-                    let mut it = v.into_iter();
-                    tuple_match!(n, it, |t| fin_race_ok_arr(t.race_ok()))
-                }
-                Container::Array => array_match!(v, |a| fin_race_ok_arr(a.race_ok())),
-                #[cfg(feature = "has-alloc")]
-                Container::Vec => fin_race_ok_vec(v.race_ok()),
-                c => panic!("harness: race_ok over {:?}", c),
-            }
-        }
+        Family::TryJoin => match spec.variant {
+            1 => try_join_over(kids_plain(id, spec, Flavor::R, PlainR), spec.container, n),
+            2 => try_join_over(kids_raw(id, spec, Flavor::R, RawR), spec.container, n),
+            _ => try_join_over(kids_r(id, spec), spec.container, n),
+        },
+        Family::RaceOk => match spec.variant {
+            1 => race_ok_over(kids_plain(id, spec, Flavor::R, PlainR), spec.container, n),
+            _ => race_ok_over(kids_r(id, spec), spec.container, n),
+        },
         f => panic!("harness: {:?} is not a future of Result", f),
     };
     (id, b)
@@ -439,64 +590,19 @@ pub fn build_s(parent: Option<NodeId>, idx: usize, spec: &CombSpec) -> (NodeId, 
     let id = new_comb_node(parent, idx, spec);
     let n = spec.children.len();
     let b: BoxS = match spec.family {
-        Family::Merge => {
-            let v = kids_s(id, spec);
-            match spec.container {
-                Container::Tuple => {
-                    if n == 0 {
-                        map_s(().merge(), |x| match x {})
-                    } else {
-                        let mut it = v.into_iter();
-                        tuple_match!(n, it, |t| Box::pin(t.merge()) as BoxS)
-                    }
-                }
-                Container::Array => array_match!(v, |a| Box::pin(a.merge()) as BoxS),
-                #[cfg(feature = "has-alloc")]
-                Container::Vec => Box::pin(v.merge()),
-                Container::Ext => {
-                    let mut it = v.into_iter();
-                    let (a, b) = (nx!(it), nx!(it));
-                    Box::pin(a.merge(b))
-                }
-                c => panic!("harness: merge over {:?}", c),
-            }
-        }
-        Family::Zip => {
-            let v = kids_s(id, spec);
-            match spec.container {
-                Container::Tuple => {
-                    let mut it = v.into_iter();
-                    tuple_match!(n, it, |t| map_s(t.zip(), |x| Val::list(x.into_vec())))
-                }
-                Container::Array => array_match!(v, |a| map_s(a.zip(), |x| Val::list(x.into_vec()))),
-                #[cfg(feature = "has-alloc")]
-                Container::Vec => map_s(v.zip(), |x| Val::list(x)),
-                Container::Ext => {
-                    let mut it = v.into_iter();
-                    let (a, b) = (nx!(it), nx!(it));
-                    map_s(a.zip(b), |x| Val::list(x.into_vec()))
-                }
-                c => panic!("harness: zip over {:?}", c),
-            }
-        }
-        Family::Chain => {
-            let v = kids_s(id, spec);
-            match spec.container {
-                Container::Tuple => {
-                    let mut it = v.into_iter();
-                    tuple_match!(n, it, |t| Box::pin(t.chain()) as BoxS)
-                }
-                Container::Array => array_match!(v, |a| Box::pin(a.chain()) as BoxS),
-                #[cfg(feature = "has-alloc")]
-                Container::Vec => Box::pin(v.chain()),
-                Container::Ext => {
-                    let mut it = v.into_iter();
-                    let (a, b) = (nx!(it), nx!(it));
-                    Box::pin(a.chain(b))
-                }
-                c => panic!("harness: chain over {:?}", c),
-            }
-        }
+        Family::Merge => match spec.variant {
+            1 => merge_over(kids_plain(id, spec, Flavor::S, PlainS), spec.container, n),
+            _ => merge_over(kids_s(id, spec), spec.container, n),
+        },
+        Family::Zip => match spec.variant {
+            1 => zip_over(kids_plain(id, spec, Flavor::S, PlainS), spec.container, n),
+            2 => zip_over(kids_raw(id, spec, Flavor::S, RawS), spec.container, n),
+            _ => zip_over(kids_s(id, spec), spec.container, n),
+        },
+        Family::Chain => match spec.variant {
+            1 => chain_over(kids_plain(id, spec, Flavor::S, PlainS), spec.container, n),
+            _ => chain_over(kids_s(id, spec), spec.container, n),
+        },
         Family::WaitS => {
             let inner = build_snode(id, 0, &spec.children[0]);
             let deadline = build_fnode(id, 1, &spec.children[1]);
